@@ -851,7 +851,11 @@ func (x *TExec) check(ctx string) { //nolint:cyclop
 
 				return
 			case !tc.gone && !tc.limbo && tc.srvEnd.IsClosed() && !tc.peerEnd.IsClosed():
-				x.fail([]string{"C16"}, "peer-connection-closed-early", "%s: the server closed pending/bound peer connection %#x (%v), age %v", ctx, tc.id, tc.peer, 30*time.Second-time.Until(tc.deadline))
+				early := []string{"C16"}
+				if tc.foreignTried {
+					early = append(early, "C04") // somebody else's (refused) request named this connection before
+				}
+				x.fail(early, "peer-connection-closed-early", "%s: the server closed pending/bound peer connection %#x (%v), age %v", ctx, tc.id, tc.peer, 30*time.Second-time.Until(tc.deadline))
 
 				return
 			}
